@@ -1,7 +1,7 @@
 """C05 — 1014 unblocking: reads return the exact payload stream for every read sequence."""
 import io
 from util import hb, outcome
-from props.framing import (B, BLK, coded, hlist, payload_of, well_formed_blocks, lay_ref, block_ref, slices_ref,
+from props.framing import (in_stream, B, BLK, coded, hlist, payload_of, well_formed_blocks, lay_ref, block_ref, slices_ref,
                            read_all_impl, rend_text, vbs_ref, record_content)
 
 ID = 'C05'
@@ -69,7 +69,7 @@ def impl(case):
     f = the_file(case)
     if case['kind'] == 'reads':
         def run():
-            u = mciipm.Unblock1014(io.BytesIO(f))
+            u = mciipm.Unblock1014(in_stream(f))
             return [u.read(n) if n else u.read() for n in case['ns']]
         return {'out': outcome(run, hlist)}
     if case['kind'] == 'reader':
